@@ -114,6 +114,7 @@ func (c *Ctx) typeSwitches(pkgs ...string) []*tySwitch {
 						}
 					} else {
 						ts.after = "statements"
+						c.chainedCases(pkg, info, fd, sw, ts)
 					}
 				}
 				out = append(out, ts)
@@ -425,4 +426,77 @@ func (c *Ctx) foldWithNilNode(ts *tySwitch) (verdict bool, detail string, ok boo
 		return false, "folded with a nil node: the error result is nil, so an unmatched node is accepted silently", true
 	}
 	return true, "folded with a nil node: returns a non-nil error (" + pstring(last) + ")", true
+}
+
+// chainedCases: a dispatcher split in two - the switch handles the composite nodes and what falls out of it is handed, as the very
+// value that was switched on, to a function of the same package that switches on it again (`value, isLeaf := leafValue(si, ...)`).
+// The cases of that second switch are cases of the dispatcher.
+func (c *Ctx) chainedCases(pkg string, info *types.Info, fd *ast.FuncDecl, sw *ast.TypeSwitchStmt, ts *tySwitch) {
+	// only the statement that follows the switch directly: everything that falls out passes through it
+	for _, s := range []ast.Stmt{stmtAfter(fd.Body, sw)} {
+		if s == nil {
+			continue
+		}
+		if _, isIf := s.(*ast.IfStmt); isIf {
+			continue // a call under a condition does not see every value
+		}
+		ast.Inspect(s, func(n ast.Node) bool {
+			call, ok := n.(*ast.CallExpr)
+			if !ok {
+				return true
+			}
+			var callee *types.Func
+			switch f := unparen(call.Fun).(type) {
+			case *ast.Ident:
+				callee, _ = info.Uses[f].(*types.Func)
+			case *ast.SelectorExpr:
+				callee, _ = info.Uses[f.Sel].(*types.Func)
+			}
+			if callee == nil || callee.Pkg() == nil || !c.isRepoPkg(callee.Pkg()) {
+				return true
+			}
+			argIdx := -1
+			for i, a := range call.Args {
+				if id, ok := unparen(a).(*ast.Ident); ok && switchSubjectIs(info, sw, id) {
+					argIdx = i
+				}
+			}
+			if argIdx < 0 {
+				return true
+			}
+			c.allFuncDecls(pkg, func(g *ast.FuncDecl) {
+				if info.Defs[g.Name] != types.Object(callee) || g.Body == nil || g.Type.Params == nil {
+					return
+				}
+				// the name of parameter argIdx
+				var param *ast.Ident
+				k := 0
+				for _, f := range g.Type.Params.List {
+					for _, nm := range f.Names {
+						if k == argIdx {
+							param = nm
+						}
+						k++
+					}
+				}
+				if param == nil {
+					return
+				}
+				for _, gs := range g.Body.List {
+					gsw, ok := gs.(*ast.TypeSwitchStmt)
+					if !ok || !switchSubjectIs(info, gsw, param) {
+						continue
+					}
+					for _, cc := range gsw.Body.List {
+						for _, e := range cc.(*ast.CaseClause).List {
+							if t := info.TypeOf(e); t != nil {
+								ts.cases[types.TypeString(t, shortQual)] = true
+							}
+						}
+					}
+				}
+			})
+			return true
+		})
+	}
 }
